@@ -1308,6 +1308,9 @@ class Module:
         ref_funcs = alpha.load_table().get(relpath.replace(os.sep, "/"))
         # helpers that the reference version of this module does not have are inlined back into their callers
         ref_locals = {q: (set(v.get("locals", [])) | {k.split(".")[-1] for k in ref_funcs if k.startswith(q + ".")}) for q, v in ref_funcs.items()} if ref_funcs else None
+        # locals that were merely renamed get their reference names back first, so that the inliner's "new with respect to the reference"
+        # test for local closures is not fooled by a consistent renaming (a second pass runs on the normal form below)
+        self.alpha_pre = alpha.normalise(tree0, relpath) if ref_funcs else []
         self.inlined_helpers = inline.inline_new_helpers(tree0, set(ref_funcs), ref_locals) if ref_funcs else []
         self.tree = normal_form(tree0)
         self.alpha_renamed = alpha.normalise(self.tree, relpath)   # locals renamed back to their reference names
